@@ -19,7 +19,9 @@ from harness.props import c12, c03
 RULE = ('case = (gts, eqs) lists of signomials (n<=2; 1-4 terms; one or several positive coefficients; zeros); compared: the '
         'normalised constraints kept and the log-space constraints emitted (weighted_sum_exp <= c0, a.x <= ln q, a.x == ln q); '
         'non-trivial = at least one kept constraint with >= 3 terms or an equality; oracle samples 40 points per instance')
-TRUSTED = ['correspondence harness harness/props/c15.py (logarithmic right-hand sides are matched within 4 ulp against ln of the model\'s rational)',
+USES_TRANSLATOR = True
+TRUSTED = ['translator harness/translator/funcs.py (Gen/GenConGen.v: the four selection functions of constraint_generators.py, one decision per constraint)',
+           'correspondence harness harness/props/c15.py (logarithmic right-hand sides are matched within 4 ulp against ln of the model\'s rational)',
            'ORACLE: ECOS for suppfunc, _check_feasibility and the membership-by-conic-feasibility test',
            'PolyDomain (log|x| space) is tied through the same generators applied to polynomials by the oracle stream only']
 ASSUMPTIONS = ['Model/ConGen.v is hand written; tied by correspondence only',
